@@ -373,6 +373,28 @@ def gen_valid(rng, long_times=False):
         n.instrument, n.program, n.is_drum = g
         n.pitch, n.velocity = pitch, rng.choice([1, 127, 100, rng.randrange(1, 128)])
         n.start_time, n.end_time = a, b
+    if len(ns.notes) and not many and rng.random() < 0.25:
+        # unison: the very same note (pitch, velocity, start, end) on ANOTHER instrument number with the same program and
+        # drum flag (two violin tracks doubling each other) - and sometimes with another program; a reader or writer that
+        # identifies notes by value without the instrument number loses one of them (seed C03-18)
+        for _ in range(rng.choice([1, 2, 3])):
+            src = rng.choice(list(ns.notes))
+            same = rng.random() < 0.75
+            cands = [g for g in groups if g[0] != src.instrument and ((g[1], g[2]) == (src.program, src.is_drum)) == same]
+            if cands:
+                g = rng.choice(cands)
+            else:
+                g = (max(x[0] for x in groups) + 1, src.program if same else (src.program + 1) % 128, src.is_drum)
+                groups.append(g)
+            okey = ((g[0],) if per_instrument else g) + (src.pitch,)
+            if any(not (src.end_time <= c or d <= src.start_time) for c, d in occ.get(okey, [])):
+                continue
+            occ.setdefault(okey, []).append((src.start_time, src.end_time))
+            occ[okey].sort()
+            n = ns.notes.add()
+            n.CopyFrom(src)
+            n.instrument, n.program, n.is_drum = g
+            hist.add('note:unison-same-program' if same else 'note:unison-other-program')
     noted = sorted({(n.instrument, n.program, n.is_drum) for n in ns.notes})
     end = max([n.end_time for n in ns.notes] + [0.0])
     ns.total_time = end
@@ -835,39 +857,48 @@ def oracle(ns, r, default_qpm=120.0):
         return len(a) == len(b) and all(
             x.pitch == y.pitch and x.velocity == y.velocity and close(x.start_time, y.start_time) and
             close(x.end_time, y.end_time) for x, y in zip(srt(a), srt(b)))
+    # control changes and pitch bends belong to the comparison of a group with a returned instrument: two groups may carry
+    # the very same notes (a unison on two instruments with one program) and differ only in their controllers, so the
+    # one-to-one assignment is sought over notes AND events together (an assignment over notes alone is ambiguous there,
+    # and judging the events by an arbitrary one of the note-wise assignments raised an alarm on correct code)
+    EVK = (('control changes', lambda q: q.control_changes, lambda c: (c.control_number, c.control_value)),
+           ('pitch bends', lambda q: q.pitch_bends, lambda c: (c.bend,)))
+    ev_in, ev_out = {}, {}
+    for name, fld, val in EVK:
+        for c in fld(ns):
+            g = (c.instrument, c.program, c.is_drum)
+            if g in gin:
+                ev_in.setdefault((name, g), []).append(c)
+        for c in fld(r):
+            if c.instrument not in gout:
+                return '%s returned on an instrument without notes' % name
+            m = gout[c.instrument][0]
+            if (c.program, c.is_drum) != (m.program, m.is_drum):
+                return '%s returned with another program / drum flag' % name
+            ev_out.setdefault((name, c.instrument), []).append(c)
+
+    def events_differ(g, j):
+        for name, _, val in EVK:
+            x = sorted(ev_in.get((name, g), []), key=lambda c: (val(c), F(c.time)))
+            y = sorted(ev_out.get((name, j), []), key=lambda c: (val(c), F(c.time)))
+            if len(x) != len(y) or any(val(p) != val(q) or not close(p.time, q.time) for p, q in zip(x, y)):
+                return '%s of group %s not preserved (%d -> %d)' % (name, g, len(x), len(y))
+        return None
     cands = {}
     for g, l in gin.items():
-        cands[g] = [j for j, m in gout.items() if (m[0].program, m[0].is_drum) == (g[1], g[2]) and notes_match(l, m)]
-        if not cands[g]:
+        by_notes = [j for j, m in gout.items() if (m[0].program, m[0].is_drum) == (g[1], g[2]) and notes_match(l, m)]
+        if not by_notes:
             near = [j for j, m in gout.items() if (m[0].program, m[0].is_drum) == (g[1], g[2])]
             return 'notes of group %s (instrument, program, drum) not returned on one instrument within one tick (same program/drum instruments: %s)' % (g, near)
+        cands[g] = [j for j in by_notes if events_differ(g, j) is None]
+        if not cands[g]:
+            return events_differ(g, by_notes[0])
     mp = _match(cands)
     if mp is None:
-        return 'groups merged: no one-to-one assignment of groups to returned instruments'
+        return 'groups merged: no one-to-one assignment of groups to returned instruments (notes, control changes and pitch bends together)'
     for n in r.notes:
         if not F(n.start_time) < F(n.end_time):
             return 'returned note has no positive length'
-    # --- control changes and pitch bends per instrument that has notes
-    back = {j: g for g, j in mp.items()}
-    for name, src, dst, val in (('control changes', ns.control_changes, r.control_changes, lambda c: (c.control_number, c.control_value)),
-                                ('pitch bends', ns.pitch_bends, r.pitch_bends, lambda c: (c.bend,))):
-        a, b = {}, {}
-        for c in src:
-            g = (c.instrument, c.program, c.is_drum)
-            if g in gin:
-                a.setdefault(g, []).append(c)
-        for c in dst:
-            if c.instrument not in back:
-                return '%s returned on an instrument without notes' % name
-            g = back[c.instrument]
-            if (c.program, c.is_drum) != (g[1], g[2]):
-                return '%s returned with another program / drum flag' % name
-            b.setdefault(g, []).append(c)
-        for g in set(a) | set(b):
-            x = sorted(a.get(g, []), key=lambda c: (val(c), F(c.time)))
-            y = sorted(b.get(g, []), key=lambda c: (val(c), F(c.time)))
-            if len(x) != len(y) or any(val(p) != val(q) or not close(p.time, q.time) for p, q in zip(x, y)):
-                return '%s of group %s not preserved (%d -> %d)' % (name, g, len(x), len(y))
     # --- tempo / time signature / key in effect at every instant (probed at every event time and between changes)
     probes = {F(0)}
     for n in ns.notes:
